@@ -471,6 +471,9 @@ type ProgOpts struct {
 func genProgression(o ProgOpts, k0 string) *rapid.Generator[[]PItem] {
 	return rapid.Custom(func(t *rapid.T) []PItem {
 		n := rapid.IntRange(1, o.MaxItems).Draw(t, "nitems")
+		if coin(t, "long-progression", 4) {
+			n = rapid.IntRange(60, 260).Draw(t, "long-nitems") // a long piece: several KB of text, hundreds of instances
+		}
 		key := k0
 		var ps []PItem
 		hasChord := false
